@@ -3,7 +3,7 @@ CONSTANTS
   Construct = "map"
   MaxN = 3
   MaxK = 2
-  FKinds = {"err", "wrapped", "panicErr", "panicStr", "panicOther", "skip", "eof", "abort", "ctx", "excl"}
+  FKinds = {"err", "panicErr", "skip", "eof", "ctx", "excl"}
   MaxFaults = 2
   OptSet <- OptsAll
   AbortCancels = TRUE
